@@ -777,6 +777,155 @@ def lieSweep (thorough : Bool) (doc : Bytes → IO Unit) : IO Unit := do
             seen := d :: seen
             doc d
 
+/-! ### the /Filter x /DecodeParms SHAPE table on every stream the pipeline decodes
+
+  `StreamT::filters` (pdf_obj.rs) pairs the two entries of a stream dictionary by their SHAPES: a single name with
+  an optional dictionary, or an array of names with an optional parallel array of null / dictionary entries;
+  everything else is a located error (or silently no filter at all).  C06 runs the whole table against the
+  function in isolation; here the same table is put on the four streams the pipeline decodes ITSELF (hosts of
+  `parmSweep`: the page's content stream alone and as first element of a /Contents array, the object stream
+  holding catalog and page tree, the cross-reference stream) in complete small documents, so that every exit of
+  the function - and every partial operation somebody may add to it - is reached through decode_stream,
+  ObjStreamP and XrefStreamP.  The data is the host's own payload REALLY ENCODED for the layers the /Filter
+  entry names (Flate, ASCIIHex, ASCII85, outermost first; a predictor dictionary that the shape hands to a
+  FlateDecode layer is honoured by the spec-side predictor encoder), so the legal shapes complete with the
+  text extracted / the objects loaded through the decoders. -/
+
+inductive FEnt where
+  | nm (s : String)          -- a name
+  | other (s : String)       -- any other object, spelled
+deriving BEq
+
+inductive FForm where
+  | absent
+  | single (e : FEnt)
+  | arr (es : List FEnt)
+deriving BEq
+
+/-- an entry of /DecodeParms -/
+inductive PEnt where
+  | null
+  | dEmpty                   -- << >>
+  | dP1                      -- << /Predictor 1 >>
+  | dP12                     -- << /Predictor 12 /Columns 4 >>: the data of a Flate layer that gets it is PNG-Up encoded
+  | other (s : String)
+deriving BEq
+
+inductive PForm where
+  | absent
+  | single (e : PEnt)
+  | arr (es : List PEnt)
+deriving BEq
+
+def FEnt.text : FEnt → String
+  | .nm s => "/" ++ s
+  | .other s => s
+
+def FForm.text : FForm → String
+  | .absent => ""
+  | .single e => "/Filter " ++ e.text ++ " "
+  | .arr es => "/Filter [" ++ " ".intercalate (es.map FEnt.text) ++ "] "
+
+def PEnt.text : PEnt → String
+  | .null => "null"
+  | .dEmpty => "<< >>"
+  | .dP1 => "<< /Predictor 1 >>"
+  | .dP12 => "<< /Predictor 12 /Columns 4 >>"
+  | .other s => s
+
+def PForm.text : PForm → String
+  | .absent => ""
+  | .single e => "/DecodeParms " ++ e.text ++ " "
+  | .arr es => "/DecodeParms [" ++ " ".intercalate (es.map PEnt.text) ++ "] "
+
+/-- the layers the /Filter entry names (outermost first), each with: does the shape hand it the predictor
+    dictionary (single name + dictionary; parallel arrays of equal length, entry by entry) -/
+def shapeLayers (f : FForm) (p : PForm) : List (String × Bool) :=
+  match f, p with
+  | .absent, _ => []
+  | .single (.nm s), .single e => [(s, e == .dP12)]
+  | .single (.nm s), _ => [(s, false)]
+  | .single _, _ => []
+  | .arr es, .arr ps =>
+    if es.length == ps.length then
+      (es.zip ps).filterMap fun (e, q) => match e with | .nm s => some (s, q == .dP12) | _ => none
+    else es.filterMap fun e => match e with | .nm s => some (s, false) | _ => none
+  | .arr es, _ => es.filterMap fun e => match e with | .nm s => some (s, false) | _ => none
+
+/-- the payload encoded for the layers (innermost layer first applied) -/
+def shapeEncode (layers : List (String × Bool)) (pad : UInt8) (payload : Bytes) : Bytes :=
+  layers.foldr (fun (l : String × Bool) d =>
+    if l.1 == "FlateDecode" then
+      zlibStored (if l.2 then (encodeFor ⟨.int 12, .absent, .int 4, .absent⟩ 4 pad d).2 else d)
+    else if l.1 == "ASCIIHexDecode" then asciiHexEnc d
+    else if l.1 == "ASCII85Decode" then ascii85Enc d
+    else d) payload
+
+/-- one document of the shape table; hosts as in `parmDoc`; `flip` writes /DecodeParms before /Filter -/
+def shapeDoc (host : Nat) (flip : Bool) (f : FForm) (p : PForm) : Bytes :=
+  let enc (pad : UInt8) (payload : Bytes) : Bytes × Bytes :=
+    (bs (if flip then p.text ++ f.text else f.text ++ p.text), shapeEncode (shapeLayers f p) pad payload)
+  let plainS (payload : Bytes) : Bytes × Bytes := ([], payload)
+  match host % 4 with
+  | 0 => let (x, d) := enc 32 textContent
+         baseDoc d x none (bs "[3 0 R]") [] [] [] []
+  | 1 => let (x, d) := enc 32 textContent
+         twoStreamDocX d x (bs "q Q")
+  | 2 => xosDoc (enc 32) plainS
+  | _ => xosDoc plainS (enc 0)
+
+def fForms (thorough : Bool) : List FForm :=
+  let n := FEnt.nm
+  [.absent, .single (n "FlateDecode"), .single (n "ASCIIHexDecode"), .arr [], .arr [n "FlateDecode"],
+   .arr [n "ASCIIHexDecode", n "FlateDecode"], .arr [n "ASCII85Decode", n "ASCIIHexDecode", n "FlateDecode"],
+   .single (.other "7"), .arr [.other "7"], .arr [n "FlateDecode", .other "7"], .arr [.other "7", n "FlateDecode"],
+   .single (.other "null")] ++
+  (if thorough then
+    [.single (n "ASCII85Decode"), .arr [n "ASCII85Decode"], .arr [n "ASCIIHexDecode"], .arr [n "ASCII85Decode", n "FlateDecode"],
+     .arr [n "FlateDecode", n "FlateDecode"], .arr [n "ASCIIHexDecode", n "ASCIIHexDecode", n "ASCII85Decode"],
+     .single (n "Unknown"), .arr [n "FlateDecode", n "Unknown"], .arr [n "Unknown", n "FlateDecode"],
+     .single (.other "(FlateDecode)"), .arr [.other "(FlateDecode)", n "FlateDecode"], .arr [.other "[/FlateDecode]"],
+     .single (.other "<< >>"), .single (.other "3 0 R"), .single (.other "99 0 R"), .arr [.other "3 0 R"],
+     .arr [n "FlateDecode", .other "null"], .arr [.other "null"], .arr [.other "null", .other "null", .other "null"],
+     .single (.other "true"), .single (.other "1.5")]
+   else [])
+
+def pForms (thorough : Bool) : List PForm :=
+  let o := PEnt.other
+  [.absent, .single .null, .single .dEmpty, .single .dP1, .single .dP12,
+   .arr [], .arr [.null], .arr [.dEmpty], .arr [.dP12], .arr [o "7"],
+   .arr [.null, .null], .arr [.null, .dP12], .arr [.dEmpty, o "7"], .arr [o "7", .null],
+   .arr [.null, .null, .null], .arr [.null, .null, .dP12], .arr [.null, o "7", .null],
+   .single (o "7"), .single (o "/N"), .single (o "3 0 R"), .arr [o "3 0 R"]] ++
+  (if thorough then
+    [.single (o "(s)"), .single (o "true"), .single (o "1.5"), .single (o "99 0 R"), .arr [o "99 0 R"], .arr [o "[null]"],
+     .arr [o "[ ]"], .arr [o "/N"], .arr [o "(s)"], .arr [.dP1], .arr [.dEmpty, .dEmpty], .arr [.dP12, .dP12], .arr [.dP12, .null],
+     .arr [.null, o "3 0 R"], .arr [.dEmpty, .dEmpty, .dEmpty], .arr [.dP12, .null, .null], .arr [o "7", o "7", o "7"],
+     .arr [.null, .null, .null, .null], .arr [.null, .dEmpty, .null, .dP12]]
+   else [])
+
+/-- quick: every (filter form, parameter form) pair once, hosts rotating, and the pairs around the single-name /
+    one-element-array boundary on all four hosts; thorough: everything on all four hosts. -/
+def shapeSweep (thorough : Bool) (doc : Bytes → IO Unit) : IO Unit := do
+  let n := FEnt.nm
+  let keyF : List FForm := [.single (n "FlateDecode"), .single (n "ASCIIHexDecode"), .arr [n "FlateDecode"]]
+  let keyP : List PForm := [.arr [], .arr [.null], .arr [.dEmpty], .arr [.null, .null]]
+  -- legal shapes whose predictor dictionary reaches the FlateDecode layer: on the object-stream and cross-reference
+  -- stream hosts the document completes only if the chain was really decoded
+  let legal : List (FForm × PForm) :=
+    [(.single (n "FlateDecode"), .single .dP12), (.arr [n "ASCIIHexDecode", n "FlateDecode"], .arr [.null, .dP12]),
+     (.arr [n "ASCII85Decode", n "ASCIIHexDecode", n "FlateDecode"], .arr [.null, .null, .dP12])]
+  let mut k := 0
+  for f in fForms thorough do
+    for p in pForms thorough do
+      if thorough || (keyF.contains f && keyP.contains p) || legal.contains (f, p) then
+        for host in [0, 1, 2, 3] do
+          doc (shapeDoc host (k % 2 == 1) f p)
+          k := k + 1
+      else
+        doc (shapeDoc k (k / 4 % 2 == 1) f p)
+        k := k + 1
+
 def gen (seed n : Nat) (tier : String) (emit : String → IO Unit) : IO Unit := do
   let doc := fun (b : Bytes) => emit s!"doc {hexOfBytes b}"
   -- fixed scenarios
@@ -800,6 +949,7 @@ def gen (seed n : Nat) (tier : String) (emit : String → IO Unit) : IO Unit := 
     doc (baseDoc data (bs "/Filter [/FlateDecode] /DecodeParms [<< " ++ bs pp ++ bs " >>]") none (bs "[3 0 R]") [] [] [] [])
   parmSweep (tier == "thorough") doc
   lieSweep (tier == "thorough") doc
+  shapeSweep (tier == "thorough") doc
   doc (baseDoc (zlibStored textContent) (bs "/Filter /FlateDecode") none (bs "[3 0 R]") [] [] [] [])
   doc (baseDoc (bs "<424420> ") (bs "/Filter [/ASCIIHexDecode /ASCII85Decode /FlateDecode]") none (bs "[3 0 R]") [] [] [] [])
   doc (baseDoc (bs "zzzz87cURD]i,\"Ebo80~>") (bs "/Filter /ASCII85Decode") none (bs "[3 0 R]") [] [] [] [])
